@@ -89,6 +89,8 @@ def generate(prop, seed, tier):
                     break
         desc["ops"].insert(len(desc["ops"]) - 1, dict(op="retime", offsets=offs))
     names = sorted(desc["world"]["stores"])
+    files = ["file", "file", "file:path-source", "file:path-source-optional", "file:pickle", "file:json", "file:text",
+             "file:binary", "file:touch", "file:helper+pathlib", "file:pickle+pathlib", "file:path-source+pathlib"]
     # (aware renderings: the fixed list plus arbitrary UTC offsets in whole minutes)
     aware = AWARE + [["offset", rng.randrange(-12 * 60, 14 * 60 + 1)] for _ in range(3)]
     variants = [dict(tz="UTC", renders={n: "aware-utc" for n in names}, fresh_render="aware-utc")]
@@ -103,13 +105,14 @@ def generate(prop, seed, tier):
             if style == "all-naive":
                 renders[n] = "naive-local"
             elif style == "file":
-                renders[n] = rng.choice(["file", "file", "naive-local"])
+                renders[n] = rng.choice([rng.choice(files), rng.choice(files), "naive-local"])
             elif style == "all-aware":
                 renders[n] = rng.choice(aware)
             elif style == "same-zone":
                 renders[n] = ["zone", zname] if rng.random() < 0.85 else rng.choice(aware)
             else:
-                renders[n] = rng.choice(["naive-local", "file", rng.choice(aware)])
+                renders[n] = rng.choice(["naive-local", rng.choice(files), rng.choice(aware),
+                                         [rng.choice(["mts", "lit"]), rng.choice(["naive-local", rng.choice(aware)])]])
         fr = rng.choice(["naive-local", rng.choice(aware)])
         if style == "same-zone" and rng.random() < 0.7:
             fr = ["zone", zname]
@@ -155,7 +158,10 @@ def execute(prop, desc):
             vop["cfg"].update(tz=var["tz"], renders=var["renders"], fresh_render=var["fresh_render"], scratch=scratch,
                               retry=None, max_errors=0)
             rec = machine.run_op(hist, vop, last + vi, tape=tapes.get(str(last + vi)))
-            kinds = {(r if isinstance(r, str) else r[0]) for r in var["renders"].values()}
+            kinds = {(r if isinstance(r, str) else r[0]).split(":")[0] for r in var["renders"].values()}
+            for r in var["renders"].values():
+                if isinstance(r, str) and r.startswith("file:"):
+                    fired["via-" + r.split(":")[1].split("+")[0]] = fired.get("via-" + r.split(":")[1].split("+")[0], 0) + 1
             tag = "tz=" + ("UTC" if var["tz"] == "UTC" else "non-UTC") + ";" + "+".join(sorted(kinds))
             fired[tag] = fired.get(tag, 0) + 1
             v = R.o_exact(rec, world, hist)
